@@ -196,6 +196,23 @@ def random_cfg(rnd, nv=3, Sigma=('a', 'b'), max_rules=3, max_rhs=3, cnf=False):
     return mk_cfg(rules, S='S', V=V, Sigma=Sigma)
 
 
+def random_unit_cfg(rnd, Sigma=('a', 'b', 'd')):
+    """grammars rich in unit rules: every variable has one to three unit alternatives (cycles through the start variable included, several
+    unit alternatives in a random order) next to terminal and binary alternatives - the shapes on which a unit-rule closure can go wrong"""
+    V = ['S', 'A', 'B', 'C'][:rnd.randint(2, 4)]
+    rules = []
+    for v in V:
+        alts = [[u] for u in rnd.sample([x for x in V if x != v], rnd.randint(1, min(3, len(V) - 1)))]
+        for _ in range(rnd.randint(0, 2)):
+            k = rnd.random()
+            alts.append([rnd.choice(Sigma)] if k < 0.4 else [rnd.choice(Sigma), rnd.choice(V)] if k < 0.8 else [rnd.choice(V), rnd.choice(V)])
+        rnd.shuffle(alts)
+        for a in alts:
+            if (v, a) not in rules: rules.append((v, a))
+    if not any(len(a) == 1 and a[0] in Sigma for _, a in rules): rules.append((rnd.choice(V), [rnd.choice(Sigma)]))
+    return mk_cfg(rules, S='S', V=V, Sigma=Sigma)
+
+
 def random_cnf_colliding_names(rnd, Sigma=('a', 'b', 'c', 'd')):
     """CNF grammar over variables whose names concatenate ambiguously (A.BB and AB.B both spell ABB): sentential forms must be compared
     as sequences of variables, not as joined strings"""
